@@ -329,3 +329,17 @@ func genUnrelated(t *rapid.T) uint32 {
 	}
 	return uint32(rapid.Uint16().Draw(t, "optbits")) | uint32(rapid.IntRange(0, 1).Draw(t, "optbits2"))<<16
 }
+
+// underOtherOptions runs call() - typically a wrapper call with the very bytes the check is about to use - while two
+// decoder options differ from the ones in force (attribute prefix, tag sequence numbers), then puts both back exactly.
+// What a function remembers about a document must not outlive a change of the options.
+func underOtherOptions(call func()) {
+	st := mxj.VerifOptionState()
+	prefix, _ := st["attrPrefix"].(string)
+	seq, _ := st["includeTagSeqNum"].(bool)
+	mxj.SetAttrPrefix("zz_")
+	mxj.IncludeTagSeqNum(!seq)
+	call()
+	mxj.IncludeTagSeqNum(seq)
+	mxj.SetAttrPrefix(prefix)
+}
